@@ -14,12 +14,16 @@ pub fn prop() -> Prop {
   Prop {
     id: "C09",
     rule: "case = (operator in debounce(w) / throttle_time(w, edge) / throttle(item-dependent window, edge) / sample(interval(p)) / buffer_with_time(p) / buffer_with_count_and_time(n,p); w in {0,1,2,3,5}, p in {1,2,3,5}, n in 1..3, all three throttle edges; timed script of <= 10 steps over a hot source with uniquely numbered items: emit, advance 1..3 ticks with a prompt executor, or advance and let the due timers' tasks run only *after* the next emission (same-instant source event before the timer task), one terminal (complete or error); local / per-node _threads / thread-safe build). \
-           Oracle: (i) outputs consist of source items only, each at most once, in source order; buffers are non-empty, never longer than n, and their concatenation is the whole source when it completed; (ii) the (virtual time, notification) list equals a discrete-event reference model: debounce emits an item iff no newer item arrived before its timer task ran and always the last one on completion; throttle emits the window-opening item on the leading edge and the last item that arrived inside the window on the trailing edge (on completion the pending trailing item may be flushed or dropped); sample/buffers release exactly what was gathered since the previous tick. Non-trivial: >= 2 items inside one window/period, or a source event at the same instant as a timer expiry. Distinct by hash(case).",
+           Oracle: (i) outputs consist of source items only, each at most once, in source order; buffers are non-empty, never longer than n, and their concatenation is the whole source when it completed; (ii) the (virtual time, notification) list equals a discrete-event reference model: debounce emits an item iff no newer item arrived before its timer task ran and always the last one on completion; throttle emits the window-opening item on the leading edge and the last item that arrived inside the window on the trailing edge (on completion the pending trailing item may be flushed or dropped); sample/buffers release exactly what was gathered since the previous tick. Non-trivial: >= 2 items inside one window/period, or a source event at the same instant as a timer expiry. Distinct by hash(case). \
+           Part `threads` (engine T): a producer thread pushes 1..4 numbered items and then completes a SubjectThreads feeding buffer_with_time / buffer_with_count_and_time / debounce / throttle_time on a harness-driven multi-thread scheduler, while a worker thread advances the clock and runs the queued timer tasks; the probe callback contains a yield point (slow consumer); schedule = <= 3 preemptions at lock-acquisition granularity. Oracle (model-free part (i) only): source items only, at most once, in order; buffers non-empty and bounded; after completion and a final drain the buffers concatenate to the whole source.",
     assumptions: &[
       "scheduler = FIFO local pool on the virtual clock; a delayed task's timer is armed when the executor first polls it (right after the emission that scheduled it)",
       "the trailing emission of throttle does not open a new window (statement silent; the library's reading)",
     ],
-    parts: vec![Part { name: "timed", run: run_case, tape_len: 96, quick_cases: 800_000, thorough_cases: 16_000_000, exhaustive_depth: None, exhaustive_budget: 0, exh_quick: false }],
+    parts: vec![
+      Part { name: "timed", run: run_case, tape_len: 96, quick_cases: 800_000, thorough_cases: 16_000_000, exhaustive_depth: None, exhaustive_budget: 0, exh_quick: false },
+      Part { name: "threads", run: run_threads, tape_len: 32, quick_cases: 20_000, thorough_cases: 500_000, exhaustive_depth: None, exhaustive_budget: 0, exh_quick: false },
+    ],
   }
 }
 
@@ -537,4 +541,127 @@ fn run_case(c: &mut dyn Choices, ctx: &Ctx) -> Outcome {
     None
   };
   Outcome { verdict, nontrivial: nt, hash: hash_of(&case), labels, notes: vec![], desc }
+}
+
+
+// ------------------------------------------------------------ engine T part
+
+fn run_threads(c: &mut dyn Choices, ctx: &Ctx) -> Outcome {
+  use crate::engine_t::{self, Verdict as TV};
+  use crate::tworld::*;
+  use crate::vtime::ticks;
+  use rxrust::ops::throttle::ThrottleEdge;
+  use rxrust::prelude::*;
+  let op = c.pick(4);
+  let n_items = 1 + c.pick(4);
+  let w_ops: Vec<bool> = (0..(1 + c.pick(5))).map(|_| c.pick(2) == 0).collect(); // true = advance
+  let k = c.pick(4);
+  let mut preemptions: Vec<(u64, usize)> = (0..k).map(|_| (1 + c.pick(40) as u64, c.pick(2))).collect();
+  preemptions.sort();
+  preemptions.dedup_by_key(|p| p.0);
+  crate::vtime::reset(crate::vtime::Mode::Fifo);
+  let w = World::new();
+  let sched = w.queue.spawner();
+  let src = w.hot[0].clone();
+  // items of buffers are flattened into the log as N(v) between markers
+  let log = w.log.clone();
+  struct BufProbe(TLog);
+  impl Observer<Vec<Item>, Er> for BufProbe {
+    fn next(&mut self, b: Vec<Item>) {
+      let mut l = self.0.lock().unwrap();
+      l.push((1, Mark::Enter(b.len(), PEv::C))); // buffer boundary: (1, Enter(len, _))
+      for v in b {
+        l.push((0, Mark::Enter(0, PEv::N(v))));
+      }
+      drop(l);
+      crate::engine_t::explicit_yield();
+    }
+    fn error(self, e: Er) {
+      self.0.lock().unwrap().push((0, Mark::Enter(0, PEv::E(e))));
+    }
+    fn complete(self) {
+      self.0.lock().unwrap().push((0, Mark::Enter(0, PEv::C)));
+    }
+    fn is_finished(&self) -> bool {
+      false
+    }
+  }
+  let count = 2usize;
+  let name = ["buffer_with_time", "buffer_with_count_and_time", "debounce", "throttle_time:all"][op];
+  let _sub: Box<dyn std::any::Any + Send> = match op {
+    0 => Box::new(src.buffer_with_time(ticks(1), sched).actual_subscribe(BufProbe(log.clone()))),
+    1 => Box::new(src.buffer_with_count_and_time(count, ticks(1), sched).actual_subscribe(BufProbe(log.clone()))),
+    2 => Box::new(src.debounce(ticks(1), sched).actual_subscribe(TProbe { id: 0, log: log.clone(), cut: None, after_cut: None, clock: None, deliveries: None })),
+    _ => Box::new(src.throttle_time(ticks(1), ThrottleEdge::all(), sched).actual_subscribe(TProbe { id: 0, log: log.clone(), cut: None, after_cut: None, clock: None, deliveries: None })),
+  };
+  let producer: Box<dyn FnOnce() + Send> = {
+    let mut s = w.hot[0].clone();
+    Box::new(move || {
+      for i in 0..n_items {
+        engine_t::call_begin();
+        s.next(1 + i as i64);
+        engine_t::call_end();
+      }
+      s.complete();
+    })
+  };
+  let worker: Box<dyn FnOnce() + Send> = {
+    let q = w.queue.clone();
+    let ops = w_ops.clone();
+    Box::new(move || {
+      for adv in ops {
+        engine_t::call_begin();
+        if adv {
+          crate::vtime::advance(ticks(1), false);
+        } else {
+          q.run_one();
+        }
+        engine_t::call_end();
+      }
+    })
+  };
+  let stats = engine_t::run_threads(vec![producer, worker], preemptions.clone(), 4_000);
+  if stats.verdict == TV::Completed {
+    for _ in 0..4 {
+      while w.queue.run_one() {}
+      crate::vtime::advance(ticks(1), false);
+    }
+  }
+  let lg = w.log.lock().unwrap().clone();
+  let items: Vec<i64> = lg.iter().filter_map(|(p, m)| if *p == 0 { if let Mark::Enter(_, PEv::N(v)) = m { Some(*v) } else { None } } else { None }).collect();
+  let buf_lens: Vec<usize> = lg.iter().filter_map(|(p, m)| if *p == 1 { if let Mark::Enter(l, _) = m { Some(*l) } else { None } } else { None }).collect();
+  let completed = lg.iter().any(|(p, m)| *p == 0 && matches!(m, Mark::Enter(_, PEv::C)));
+  let source: Vec<i64> = (1..=n_items as i64).collect();
+  let verdict = match &stats.verdict {
+    TV::Completed => {
+      let mut it = source.iter();
+      let in_order_subset = items.iter().all(|x| it.any(|s| s == x));
+      if !in_order_subset {
+        let kind = if items.iter().any(|x| !source.contains(x)) { "invented" } else if { let mut d = items.clone(); d.sort(); d.dedup(); d.len() != items.len() } { "duplicate" } else { "reordered" };
+        let sig = format!("threads:{kind}:{name}");
+        if ctx.known(&sig) {
+          Verdict::Ok
+        } else {
+          Verdict::Violation { sig, detail: format!("source {source:?}, delivered {items:?}") }
+        }
+      } else if buf_lens.iter().any(|l| *l == 0) {
+        Verdict::Violation { sig: format!("threads:empty-buffer:{name}"), detail: format!("{buf_lens:?}") }
+      } else if op == 1 && buf_lens.iter().any(|l| *l > count) {
+        Verdict::Violation { sig: format!("threads:buffer-too-long:{name}"), detail: format!("{buf_lens:?}") }
+      } else if op <= 1 && (!completed || items != source) {
+        Verdict::Violation { sig: format!("threads:buffer-loss:{name}"), detail: format!("the source sent {source:?} and completed; the buffers concatenate to {items:?} (completed: {completed})") }
+      } else if op == 2 && completed && items.last() != source.last() {
+        Verdict::Violation { sig: format!("threads:last-item-lost:{name}"), detail: format!("debounce must deliver the final item on completion: source {source:?}, delivered {items:?}") }
+      } else {
+        Verdict::Ok
+      }
+    }
+    other => Verdict::Violation { sig: format!("threads:{}:{name}", match other { TV::Deadlock(_) => "deadlock", TV::LostWakeup(_) => "lost-wakeup", TV::Panic(_) => "panic", _ => "livelock" }), detail: format!("{other:?}") },
+  };
+  let desc = if ctx.want_desc || matches!(verdict, Verdict::Violation { .. }) {
+    Some(json!({"operator": name, "producer": format!("next(1..={n_items}), complete"), "worker(true=advance 1 tick,false=run one task)": w_ops, "preemptions(step->thread; 0=producer 1=worker)": preemptions, "delivered_items": items, "buffer_lengths": buf_lens, "log(probe, mark(thread, event))": lg.iter().map(|(p, m)| format!("{p}:{m:?}")).collect::<Vec<_>>()}))
+  } else {
+    None
+  };
+  Outcome { verdict, nontrivial: stats.preempted_inside_call > 0, hash: hash_of(&(op, n_items, &w_ops, &preemptions)), labels: vec!["part:threads", name], notes: vec![], desc }
 }
